@@ -103,6 +103,31 @@ CHECKS = {
              "projection onto the attributes listed in the property must be identical, to_yaml/to_json must be a fixpoint, and verdicts on probe frames must agree.",
         note="Trusted: projection function lists exactly the property's attributes; exec of the generated script.",
         ref="3/C12"),
+    "C13": dict(
+        technique="stateless choice-point exploration of hypothesis' primitive draws (scripted PrimitiveProvider): all answer sequences within a deviation bound, prefix replay",
+        text="For ~540 schemas (3 main dtypes x check chains of length <= 2 in both orders x nullable/unique x SeriesSchema/Column/Index, 19 further dtypes, 12 DataFrameSchemas with "
+             "index / MultiIndex / regex / joint-unique / frame-level checks, a MultiIndex) and sizes 0..2 (thorough 0..3) the real schema.strategy() is executed under a provider that answers "
+             "every primitive hypothesis draw from a finite menu (bounds, shrink target, +-1, boundary, both booleans, shortest strings): the default path plus every sequence with <= 1 "
+             "(thorough 2) non-default answers. Every example produced must pass schema.validate and have the requested size; runs that produce no example are counted, not judged.",
+        note="Trusted: the answer menus (values outside them are not explored); hypothesis' ConjectureData/BuildContext internals as the seam.",
+        ref="3/C13"),
+    "C15": dict(
+        technique="explicit-state BFS over schema-transformation programs (state = fingerprint of the derived schema), commuting-square / inverse-law / attribute-preservation oracles on every transition",
+        text="From 4 seed schemas whose components carry every attribute at a non-default value (pandas rich, MultiIndex, regex; polars), every program of <= 2 (thorough 3) operations out of "
+             "add/remove/select/rename/update_column(s) (each updatable attribute)/set_index (drop, append)/reset_index (level, drop), with arguments from the schema's own names plus an absent one, "
+             "is applied; programs reaching equal schemas are merged. Every transition: receiver fingerprint unchanged and not aliased, every attribute not named by the operation preserved "
+             "(attribute by attribute), accept(S,D) => accept(op(S), op(D)) on the probe frame, inverse laws, invalid requests raise SchemaInitError/ValueError.",
+        note="Trusted: structural fingerprint as attribute equality; the frame-side counterpart of each schema operation (mc/props/c15.py:_apply_frame).",
+        ref="3/C15"),
+    "C16": dict(
+        technique="explicit-state search over histories of {define class, to_schema, validate} events on generated class hierarchies + exhaustive enumeration of hierarchies within <= 2 class-body edits, against an independent reference compiler",
+        text="Class hierarchies (chain A<-B<-C, thorough also a diamond) within <= 2 edits over Field keywords for every built-in check, flags, alias, regex, Optional, Index fields, annotation "
+             "spellings, Config options own/inherited/overridden, Config extras, @check/@dataframe_check/@parser/@dataframe_parser defined, overridden by name, name=/regex= are generated as source, "
+             "exec'd, and compared with the DataFrameSchema produced by an independent ~150-line reference compiler from the same spec: projection equality of to_schema() in every reachable "
+             "state of every event order (all linear extensions), init errors exactly where documented, earlier schemas never mutated by later events, and identical outcome / parsed result / "
+             "lazy report on the conforming table and one table per data-edit kind (thorough: every single data edit), pandas and polars.",
+        note="Trusted: the reference compiler (mc/props/c16.py:compile_ref) and mc.spec.schema builders; method bodies are generated from one text for model and reference.",
+        ref="3/C16"),
     "C19": dict(
         technique="exhaustive enumeration of (predicate, data vector, index kind, level) with metamorphic relations between option variants",
         text="6 predicates x every vector of length <= 3 (thorough 4) over {1,2,3,-1,null} x 3 index kinds x {SeriesSchema, Column, Index, DataFrame} levels: element_wise == "
